@@ -93,6 +93,20 @@ def run():
         cases.append(("avatar", seq, 0))
     for seq in avatar_cases():
         cases.append(("avatar", seq, 1))
+    # sixel payloads exported by TLC from SixelDecoder.tla (every payload of <= 4 tokens; the alphabet contains the repeat
+    # counts 4096 and 9999999, which apply to whatever follows - '-' included): those with a large repeat, as DCS q ... ST
+    from props import c14
+    c14.gen(False)
+    BIG = ([33, 52, 48, 57, 54], [33, 57, 57, 57, 57, 57, 57, 57])
+    def has_big(p):
+        return any(p[i:i + len(b)] == b for b in BIG for i in range(len(p) - len(b) + 1))
+    pl = [json.loads(l)["payload"] for l in open(os.path.join(vlib.GEN, "sixel_payloads.ndjson")) if l.startswith("{")]
+    pl = [p for p in pl if has_big(p)]
+    if not thorough:
+        pl = rng.sample(pl, min(len(pl), 4000))
+    c.extra["tlc_sixel_payloads_with_large_repeat"] = len(pl)
+    for p in pl:
+        cases.append(("ansi", b"\x1bPq" + bytes(p) + b"\x1b\\", 0))
     n_shards = 12 if thorough else 8
     shards = []
     for k in range(n_shards):
@@ -115,7 +129,7 @@ def run():
     c.extra["distinct_nontrivial"] = len({(e, bytes(s)) for e, s, _m in cases})
     c.rule = ("the complete control-function table: every CSI final byte 0x40..0x7E x 8 intermediates x every parameter vector of length 0..2 over {0,1,80,25,2^16,10^6,2^31-1} "
               "(lengths 3..6 seeded), behind preludes (scrollback, 2^31 margins, insert mode + region); DCS macros (self/mutual recursion, chains, fan-out, hex repeat groups), sixel raster / "
-              "repeat / colour headers, custom-font DCS payloads, Avatar repeats, music numbers. Each case runs under a 5 s watchdog and a 1 GiB address-space limit in a worker; a timeout, "
+              "repeat / colour headers, every TLC-exported sixel payload of <= 4 tokens that contains a repeat count of 4096 or 9999999 (quick: 4000 of them), custom-font DCS payloads, Avatar repeats, music numbers. Each case runs under a 5 s watchdog and a 1 GiB address-space limit in a worker; a timeout, "
               "allocation failure or stack overflow is a crash event judged by Trace_Term (Limit), as is a single character step > 5 s. R1: MC_Term huge slice - GrowthBounded on the model. "
               "distinct_nontrivial = number of distinct (emulation, byte string) cases.")
     c.assumptions = ["wall-clock limit 5 s per case and RLIMIT_AS 1 GiB per worker on this machine (generous fixed limits, as the property states)",
